@@ -1,9 +1,22 @@
 package metric
 
 import (
+	"strings"
+	"unicode/utf8"
+
 	"github.com/prometheus/client_golang/prometheus"
 	"github.com/prometheus/client_golang/prometheus/promauto"
 )
+
+// LabelValue makes a client supplied name (the table part of a key) usable as a label value.
+// A table name can be any bytes, and the prometheus client panics on a label value which is not
+// valid UTF-8.
+func LabelValue(s string) string {
+	if utf8.ValidString(s) {
+		return s
+	}
+	return strings.ToValidUTF8(s, "\uFFFD")
+}
 
 var (
 	// unit is ms
